@@ -7,6 +7,8 @@ import (
 	"strings"
 	"sync/atomic"
 	"time"
+
+	"verif/vsync"
 )
 
 // Sched is a cooperative scheduler: threads are goroutines that run one at a time;
@@ -84,6 +86,20 @@ func (s *Sched) Point() {
 	<-t.wake
 }
 
+// SyncPoint is the hook of the sync / sync/atomic shims (package vsync): a scheduling point at every lock,
+// unlock, once, map and atomic operation of the library under test. Calls from goroutines that are not
+// threads of this scheduler (the lexer goroutine, finalisers) are ignored.
+func (s *Sched) SyncPoint() {
+	me := goid()
+	for _, t := range s.threads {
+		if t.gid == me {
+			s.events <- sevent{t.id, false}
+			<-t.wake
+			return
+		}
+	}
+}
+
 // Run executes the bodies as threads under the scheduler and returns when all have finished
 // (or a deadlock among them is detected).
 func (s *Sched) Run(src *Src, bodies []func()) {
@@ -115,6 +131,8 @@ func (s *Sched) Run(src *Src, bodies []func()) {
 	s.stuck = make(chan int64)
 	quit := make(chan struct{})
 	defer close(quit)
+	vsync.SetHook(s.SyncPoint)
+	defer vsync.SetHook(nil)
 	go func() {
 		last := int64(-1)
 		tk := time.NewTicker(150 * time.Microsecond)
